@@ -7,7 +7,7 @@ Three kinds of cases (all enumerated completely, nothing sampled):
 eq   deviation-bounded enumeration per model over (dispersity of the first two size parameters and of one
      orientation parameter, cutoff, 1-D/2-D, nominal values, magnetism, multiplicity value and how it is given,
      how the SasView object receives the dispersity: setParam('p.width') / set_dispersion(Dispersion) /
-     set_dispersion(ArrayDispersion)).  The same settings are expressed for
+     set_dispersion(ArrayDispersion), storage order of the q points: ascending / descending / two banks / rotated).  The same settings are expressed for
         call_kernel | DirectModel | direct_model.Iq/Iqxy | SasviewModel | bumps_model.Experiment.theory()
      in their own naming scheme (p_pd_n vs p.npts) and the five results must be bit-identical (same kernel, same
      weights, same arithmetic).  The one exception, stated in DESIGN.md: 1-D data with orientation dispersity set in
@@ -18,6 +18,10 @@ sel  data objects (1-D plain, dx=0, dx, dx>0 on removed points only, slit dxl/dx
      recomputed from the raw arrays (mask==0 & qmin<=q<=qmax & ~isnan(y)); expected theory = the kernel evaluated on
      a resolution object built by the harness from the selected raw points only (order preserved); without
      resolution additionally the unmasked evaluation indexed by it.
+reuse ONE object per interface taken from setting A to setting B (all ordered pairs of settings differing in one of: a
+     value, pd width / npts / nsigmas / type, cutoff, a magnetic value, the multiplicity) and, for the SasView object,
+     clone() followed by a change of the original or of the clone: every object must equal a fresh one with its own
+     setting.  Each sequence runs in a pristine process (mc/zygote.py).
 unk  for every parameter p of a model and every interface: p+'x', p.upper(), a parameter of another model,
      dispersity suffixes (_pd, _pd_n, _pd_nsigma, _pd_type / .width, .npts / set_dispersion) on non-dispersible p,
      unknown dispersity attributes on dispersible p: must raise TypeError or ValueError.
@@ -211,6 +215,8 @@ def _dims(pl, ctx):
         dims.append(("mult", None, [["ctor", v] for v in vals]
                      + [["param", v] for v in sorted(set([lo, vals[len(vals) // 2], hi]))]))
     dims.append(("svmode", "setParam", ["set_dispersion", "array"]))
+    # storage order of the q points handed to every interface (the values are the same set)
+    dims.append(("order", "ascending", ["descending", "banks", "rotated"]))
     return dims
 
 
@@ -257,7 +263,8 @@ def cases(ctx):
     for m in eq_models(ctx):
         out.append({"kind": "unk", "model": m})
     for m, qk in (REUSE_QUICK if ctx.quick else REUSE_THOROUGH):
-        out.append({"kind": "reuse", "model": m, "q": qk})
+        for first in _reuse_variants(plan(m), qk):
+            out.append({"kind": "reuse", "model": m, "q": qk, "first": first})
     return out
 
 
@@ -336,7 +343,8 @@ def settings_for(pl, cfg):
             values[name + "_mphi"] = 20.0 - 5 * j
         values["up_frac_i"], values["up_frac_f"], values["up_theta"], values["up_phi"] = 0.3, 0.6, 70.0, 25.0
     return {"values": values, "pd": pd, "cutoff": cfg.get("cutoff", 1e-5), "mult": mult, "q": cfg.get("q", "1d"),
-            "svmode": cfg.get("svmode", "setParam"), "cut1": cut1, "magnetised": magnetised}
+            "svmode": cfg.get("svmode", "setParam"), "cut1": cut1, "magnetised": magnetised,
+            "order": cfg.get("order", "ascending")}
 
 
 def underscore_pars(st):
@@ -397,6 +405,20 @@ def sasview_object(pl, st, mods):
     return obj
 
 
+def _perm(n, order):
+    """storage orders of n points: as measured on one bank, reversed, two interleaved banks appended, rotated"""
+    idx = list(range(n))
+    if order == "ascending":
+        return idx
+    if order == "descending":
+        return idx[::-1]
+    if order == "banks":
+        return idx[0::2] + idx[1::2]
+    if order == "rotated":
+        return idx[n // 2:] + idx[:n // 2]
+    raise HarnessError("order %r" % order)
+
+
 def _qvec(kind):
     if kind == "2d":
         q = np.array(Q2, float)
@@ -444,8 +466,17 @@ def _evaluate(pl, st, mods, interfaces=INTERFACES):
     model = build.model(pl.name)
     pars = underscore_pars(st)
     cutoff = st["cutoff"]
-    q = _qvec(st["q"])
+    q0 = _qvec(st["q"])
+    perm = _perm(len(q0[0]), st.get("order", "ascending"))
+    q = [v[perm].copy() for v in q0]
     out = {}
+    if perm != sorted(perm):
+        # one value per given q, in the given order: the evaluation in measurement order, re-indexed
+        try:
+            out["reference"] = np.array(call_kernel(model.make_kernel([v.copy() for v in q0]), dict(pars), cutoff=cutoff),
+                                        float)[perm]
+        except Exception:  # noqa - then the interfaces are compared with call_kernel on the permuted vector
+            pass
 
     def attempt(key, fn):
         try:
@@ -534,7 +565,9 @@ def _run_eq(case, ctx):
         br.append("orientation-pd-in-1d")
     nt = bool(active or st["mult"] or "magnetic" in br)
     fk = {"model": pl.name, "q": st["q"]}
+    reference = res.pop("reference", None)
     ref = res.get("call_kernel")
+    br.append("q-order-" + st["order"])
     errors = {k: v for k, v in res.items() if isinstance(v, Exception)}
     if errors:
         if len(errors) == len(res) and len(set(type(e) for e in errors.values())) == 1:
@@ -546,7 +579,9 @@ def _run_eq(case, ctx):
                       trans=len(res))
     if not np.all(np.isfinite(ref)):
         br.append("non-finite-reference")
-    for k in INTERFACES[1:]:
+    if reference is not None:
+        ref = reference
+    for k in (INTERFACES if reference is not None else INTERFACES[1:]):
         if k not in res:
             continue
         if k == "sasview" and orient_1d:
@@ -559,8 +594,10 @@ def _run_eq(case, ctx):
         else:
             ok = _same(res[k], ref)
         if not ok:
-            return r.fail("%s\n  call_kernel=%s\n  %-11s=%s\n  (all: %s)"
-                          % (desc, ref, k, res[k], {i: list(v) for i, v in res.items()}),
+            return r.fail("%s\n  q stored %s: %s\n  expected (call_kernel%s)=%s\n  %-11s=%s\n  (all: %s)"
+                          % (desc, st["order"], [list(v[_perm(len(v), st["order"])]) for v in _qvec(st["q"])],
+                             "" if reference is None else " on the ascending vector, re-indexed", ref, k, res[k],
+                             {i: list(v) for i, v in res.items()}),
                           dict(fk, clause="mismatch", interface=k), branches=br, nt=nt, trans=len(res))
     r.ok(nt=nt, outcome="%s:%d-interfaces:%s" % (st["q"], len(res), "pd" if active else "mono"), trans=len(res), branches=br)
     if nt and not r.samples:
@@ -1014,20 +1051,24 @@ def _name_sets(r, pl, mods, kernel2d):
 # ------------------------------------------------------------------------------------------------
 # reuse: ONE calculator object per interface evaluated for setting A, then changed to setting B
 
-REUSE_VARIANTS = ["base", "param", "width", "npts", "nsigmas", "type", "cutoff", "magnetic"]
-REUSE_QUICK = [["sphere", "1d"], ["cylinder", "2d"]]
-REUSE_THOROUGH = REUSE_QUICK + [["sphere", "2d"], ["core_shell_sphere", "1d"], ["core_multi_shell", "2d"],
+REUSE_VARIANTS = ["base", "param", "width", "npts", "nsigmas", "type", "cutoff", "magnetic", "mult"]
+REUSE_QUICK = [["sphere", "1d"], ["cylinder", "2d"], ["core_multi_shell", "1d"]]
+REUSE_THOROUGH = REUSE_QUICK + [["sphere", "2d"], ["core_shell_sphere", "1d"], ["core_multi_shell", "2d"], ["onion", "1d"],
                                 ["lamellar", "1d"], ["ellipsoid", "2d"], ["parallelepiped", "1d"]]
 REUSE_INTERFACES = ["call_kernel", "DirectModel", "bumps", "sasview", "sasview-set_dispersion", "Iq"]
 
 
 def _reuse_variants(pl, q):
-    return [v for v in REUSE_VARIANTS if v != "magnetic" or (q == "2d" and pl.magnetic)]
+    return [v for v in REUSE_VARIANTS
+            if (v != "magnetic" or (q == "2d" and pl.magnetic)) and (v != "mult" or pl.control is not None)]
 
 
 def _reuse_setting(pl, q, variant, f):
     """the base setting, or the base setting changed in exactly one respect; every setting states the same keys"""
-    st = settings_for(pl, {"q": q, "pd0": ["gaussian", 4, 0.1, 3.0], "cutoff": 1e-5, "nominal": f})
+    cfg = {"q": q, "pd0": ["gaussian", 4, 0.1, 3.0], "cutoff": 1e-5, "nominal": f}
+    if variant == "mult":
+        cfg["mult"] = ["param", int(pl.control.default) + 1]      # the multiplicity is a setting like any other
+    st = settings_for(pl, cfg)
     name = pl.size[0]
     t, n, w, ns = st["pd"][name]
     if q == "2d" and pl.magnetic:
@@ -1048,10 +1089,64 @@ def _reuse_setting(pl, q, variant, f):
         st["cutoff"] = 0.01
     elif variant == "magnetic":
         st["values"][pl.sld + "_M0"] = 3.5
-    elif variant != "base":
+    elif variant not in ("base", "mult"):
         raise HarnessError("variant %r" % variant)
     st["pd"][name] = (t, n, w, ns)
     return st
+
+
+def _sv_apply(obj, pl, st, mode, weights):
+    """take an existing SasView object to the setting st through its own vocabulary"""
+    for name, v in st["values"].items():
+        obj.setParam(name, v)
+    for name, (t, n, w, ns) in st["pd"].items():
+        if mode == "setParam":
+            obj.setParam(name + ".width", w)
+            obj.setParam(name + ".npts", n)
+            obj.setParam(name + ".type", t)
+            obj.setParam(name + ".nsigmas", ns)
+        else:
+            obj.set_dispersion(name, weights.DISTRIBUTIONS[t](n, w, ns))
+    obj.cutoff = st["cutoff"]
+
+
+def _clone_child(arg):
+    """
+    pristine process: a SasView object with setting A is cloned; ONE of the two (original / clone) is taken to
+    setting B (dispersity through setParam or through set_dispersion); both are evaluated.
+    -> {"<who>/<how>": {"mutated": hex, "other": hex}}
+    """
+    mods = _imports()
+    bumps_model, direct_model, sasview_model, weights, sdata, resolution, resolution2d = mods
+    pl = plan(arg["model"])
+    q = _qvec(arg["q"])
+    sta = _reuse_setting(pl, arg["q"], arg["a"], arg["f"])
+    stb = _reuse_setting(pl, arg["q"], arg["b"], arg["f"])
+    out = {}
+
+    def ev(obj):
+        try:
+            res = obj.evalDistribution([q[0].copy(), q[1].copy()] if arg["q"] == "2d" else q[0].copy())
+            return np.array(res, float).tobytes().hex()
+        except Exception as exc:  # noqa
+            return "ERR:%r" % (exc,)
+
+    with warnings.catch_warnings():
+        warnings.simplefilter("ignore")
+        with np.errstate(all="ignore"):
+            for who in ("original", "clone"):
+                for how in ("setParam", "set_dispersion"):
+                    try:
+                        original = sasview_object(pl, dict(sta, svmode=how), mods)
+                        if arg.get("evaluate_first"):
+                            ev(original)
+                        copy_ = original.clone()
+                        mutated, other = (original, copy_) if who == "original" else (copy_, original)
+                        _sv_apply(mutated, pl, stb, how, weights)
+                        out[who + "/" + how] = {"other": ev(other), "mutated": ev(mutated)}
+                    except Exception as exc:  # noqa
+                        out[who + "/" + how] = {"other": "ERR:%r" % (exc,), "mutated": "ERR:%r" % (exc,)}
+    return out
 
 
 def _preload():
@@ -1122,18 +1217,7 @@ def _reuse_child(arg):
                     if i == 0:
                         holder["obj"] = sasview_object(pl, st, mods)
                     else:
-                        obj = holder["obj"]
-                        for name, v in st["values"].items():
-                            obj.setParam(name, v)
-                        for name, (t, n, w, ns) in st["pd"].items():
-                            if mode == "setParam":
-                                obj.setParam(name + ".width", w)
-                                obj.setParam(name + ".npts", n)
-                                obj.setParam(name + ".type", t)
-                                obj.setParam(name + ".nsigmas", ns)
-                            else:
-                                obj.set_dispersion(name, weights.DISTRIBUTIONS[t](n, w, ns))
-                        obj.cutoff = st["cutoff"]
+                        _sv_apply(holder["obj"], pl, st, mode, weights)
                     obj = holder["obj"]
                     return obj.evalDistribution([q[0].copy(), q[1].copy()] if arg["q"] == "2d" else q[0].copy())
                 record(key, [(lambda i=i, st=st, sv=sv: sv(i, st)) for i, st in enumerate(sts)])
@@ -1168,7 +1252,7 @@ def _run_reuse(case, ctx):
     fresh = {v: child([v]) for v in variants}
     fk0 = {"model": pl.name, "q": qk}
     # the fresh objects agree across interfaces as usual
-    for v in variants:
+    for v in (variants if case["first"] == "base" else []):
         ref = fresh[v]["call_kernel"][0]
         for iface, res in fresh[v].items():
             br = ["reuse-fresh"]
@@ -1179,11 +1263,33 @@ def _run_reuse(case, ctx):
                        {"setting": v}, branches=br)
             else:
                 r.ok(nt=True, outcome="fresh-agree", branches=br)
-    for a in variants:
+    for a in [case["first"]]:
         for b in variants:
             if a == b:
                 continue
             changed = "+".join(sorted(x for x in (a, b) if x != "base"))
+            # clone sequences: the SasView object with setting a is cloned, one of the two is taken to b
+            out = zygote.call(ctx, "c10", "mc.props.c10:_clone_child",
+                              {"model": pl.name, "q": qk, "a": a, "b": b, "f": f, "evaluate_first": b != "base"})
+            if "value" not in out:
+                raise HarnessError("clone child failed for %s %s %s->%s: %s" % (pl.name, qk, a, b, str(out)[-600:]))
+            for key, got in sorted(out["value"].items()):
+                who, how = key.split("/")
+                br = ["clone-sequence", "clone-mutated-" + who, "clone-changed-" + changed, "clone-via-" + how]
+                want_m, want_o = fresh[b]["sasview"][0], fresh[a]["sasview"][0]
+                if got["mutated"] == want_m and got["other"] == want_o:
+                    r.ok(nt=True, outcome="clone-ok", trans=3, branches=br)
+                    continue
+                wrong = "other" if got["other"] != want_o else "mutated"
+                r.fail("%s %s: SasView object with setting %r cloned, then the %s taken to setting %r via %s (changed: %s)\n"
+                       "  A = %s\n  B = %s\n  the %s object (%s) evaluates to %s\n  a fresh object with its own setting gives %s"
+                       % (pl.name, qk, a, who, b, how, changed, _describe(pl, _reuse_setting(pl, qk, a, f)),
+                          _describe(pl, _reuse_setting(pl, qk, b, f)),
+                          "untouched" if wrong == "other" else "modified",
+                          ("clone" if who == "original" else "original") if wrong == "other" else who,
+                          decode(got[wrong]), decode(want_o if wrong == "other" else want_m)),
+                       dict(fk0, clause="clone", wrong=wrong, changed=changed, via=how),
+                       {"first": a, "then": b, "mutated": who, "via": how}, branches=br, trans=3)
             seq = child([a, b])
             for iface in REUSE_INTERFACES:
                 if iface not in seq:
@@ -1222,6 +1328,8 @@ def finish(ctx, report):
     report.require("scale-background-defaulted", 20, "scale/background left to the default")
     report.require("magnetic", 5, "magnetic 2-D")
     report.require("Iq-compared", 50, "direct_model.Iq/Iqxy in the comparison")
+    for o in ("ascending", "descending", "banks", "rotated"):
+        report.require("q-order-" + o, 30, "q vector stored " + o)
     report.require("exception-tolerance", 2, "stated exception (orientation dispersity in 1-D through SasView)")
     report.require("pattern-removes-points", 500, "selection patterns removing points")
     report.require("nothing-selected", 10, "empty selection")
@@ -1247,8 +1355,15 @@ def finish(ctx, report):
     report.require("name-set-checked", 16, "accepted-name sets compared")
     report.require("name-set-multiplicity-ctor", 8, "accepted-name sets for multiplicity objects")
     report.require("reuse-fresh", 10, "fresh objects for the reuse settings")
+    report.require("clone-sequence", 200, "clone, change one, evaluate both")
+    for w in ("original", "clone"):
+        report.require("clone-mutated-" + w, 100, "clone sequences changing the " + w)
+    for h in ("setParam", "set_dispersion"):
+        report.require("clone-via-" + h, 100, "clone sequences changing dispersity through " + h)
+    for v in ("param", "width", "npts", "nsigmas", "type", "cutoff", "magnetic", "mult"):
+        report.require("clone-changed-" + v, 8, "clone sequence changing only " + v)
     report.require("reuse-sequence", 100, "two-setting sequences on one object")
-    for v in ("param", "width", "npts", "nsigmas", "type", "cutoff", "magnetic"):
+    for v in ("param", "width", "npts", "nsigmas", "type", "cutoff", "magnetic", "mult"):
         report.require("reuse-changed-" + v, 8, "sequence changing only " + v)
     for i in REUSE_INTERFACES:
         report.require("reuse-interface-" + i, 20, "reused " + i + " object")
